@@ -253,3 +253,125 @@ def kinds_rule(repo: Repo, prop: str, rule_id: str, module_prefixes: Tuple[str, 
                 undetermined += 1
     r.note(f"{undetermined} argument(s) whose kind could not be determined from annotations are not judged")
     return r
+
+
+# ---------------------------------------------------------------------------------------------------------------------
+# Point-list aware kinds for numerical kernels that work on bare arrays (optimize.cell): PL = array of points,
+# VL = array of vectors. Seeds: attributes / parameters called `points`, return annotations NPPointListType / NPPointType.
+PL, VL = "PL", "VL"
+
+
+class GeoKinds(Kinds):
+    def kind(self, e: ast.expr) -> str:  # noqa: C901
+        if isinstance(e, ast.Attribute) and e.attr in ("points", "point_array") :
+            return PL
+        if isinstance(e, ast.Name) and e.id == "points" and e.id not in self.env:
+            return PL
+        if isinstance(e, ast.Attribute) and isinstance(e.value, ast.Name) and e.value.id == "self" and self.fn.cls is not None and e.attr not in self.attr_env:
+            m = self.repo.find_method(self.fn.cls, e.attr)
+            if m is not None and m.is_property:
+                return self._ret_kind(m)
+        if isinstance(e, ast.Subscript):
+            base = self.kind(e.value)
+            if base in (PL, VL):
+                idx = e.slice
+                if isinstance(idx, ast.Slice) or (isinstance(idx, ast.Tuple) and any(isinstance(x, ast.Slice) for x in idx.elts)):
+                    return base
+                return P if base == PL else V
+            if base in (P, V):
+                return S  # a single component / a slice of components
+            return U
+        if isinstance(e, ast.Call):
+            nm = (attr_chain(e.func) or "").split(".")[-1]
+            if nm in ("take", "roll", "flip", "array", "asarray", "copy") and e.args:
+                return self.kind(e.args[0])
+            if nm in ("average", "mean", "sum") and e.args and self.kind(e.args[0]) in (PL, VL):
+                axis0 = any(kw.arg == "axis" and isinstance(kw.value, ast.Constant) and kw.value.value == 0 for kw in e.keywords)
+                if axis0 and nm != "sum":
+                    return P if self.kind(e.args[0]) == PL else V
+                return U
+            if nm == "cross" and len(e.args) >= 2:
+                a, b = self.kind(e.args[0]), self.kind(e.args[1])
+                if {a, b} <= {V}:
+                    return V
+                if {a, b} <= {V, VL} and VL in (a, b):
+                    return VL
+                return U
+            if nm == "unit_vector" and e.args:
+                return V
+            if isinstance(e.func, ast.Attribute) and isinstance(e.func.value, ast.Name) and e.func.value.id == "self" and self.fn.cls is not None:
+                m = self.repo.find_method(self.fn.cls, e.func.attr)
+                if m is not None:
+                    return self._ret_kind(m)
+        if isinstance(e, ast.BinOp):
+            a, b = self.kind(e.left), self.kind(e.right)
+            if isinstance(e.op, ast.Sub):
+                if a == PL and b in (P, PL):
+                    return VL
+                if a == VL and b in (V, VL):
+                    return VL
+            if isinstance(e.op, (ast.Mult, ast.Div)) and a == VL and b in (S, U):
+                return VL
+        return super().kind(e)
+
+    def _ret_kind(self, m, _depth: int = 0) -> str:
+        # prefer what the implementations return over the annotation (normals are annotated as point lists)
+        impls = [m]
+        if m.cls is not None:
+            for c in self.repo.subclasses(m.cls):
+                o = c.methods.get(m.name)
+                if o is not None:
+                    impls.append(o)
+        kinds = set()
+        if _depth < 2:
+            for impl in impls:
+                rets = [n.value for n in walk_shallow(impl.node) if isinstance(n, ast.Return) and n.value is not None]
+                if not rets:
+                    continue
+                sub = GeoKinds(self.repo, impl)
+                for rv in rets:
+                    kk = sub.kind(rv)
+                    if isinstance(rv, (ast.List, ast.Tuple)) and rv.elts:
+                        inner = {sub.kind(x) for x in rv.elts}
+                        kk = {frozenset({V}): VL, frozenset({P}): PL}.get(frozenset(inner), U)
+                    kinds.add(kk)
+        if len(kinds) == 1 and U not in kinds:
+            return next(iter(kinds))
+        ann = m.node.returns
+        if ann is None or kinds - {U}:
+            return U  # implementations disagree or are not derivable and there is no annotation: not judged
+        txt = ast.unparse(ann)
+        if "PointListType" in txt:
+            return PL
+        return ann_kind(ann)
+
+
+def geometry_violations(repo: Repo, fn: FuncInfo):
+    """(node, message) for uses of coordinates that cannot be invariant under rigid motion, plus the number of
+    vector-valued expressions that were classified (evidence that the kinds were determined at all)."""
+    k = GeoKinds(repo, fn)
+    out = []
+    classified = 0
+    for n in ast.walk(fn.node):
+        if isinstance(n, ast.Subscript):
+            base = k.kind(n.value)
+            if base in (P, V):
+                out.append((n, f"'{ast.unparse(n)[:60]}' picks components of a single {'position' if base == P else 'vector'}: the value depends on how the geometry is turned in space"))
+            if base in (P, V, PL, VL):
+                classified += 1
+        elif isinstance(n, ast.Call):
+            nm = (attr_chain(n.func) or "").split(".")[-1]
+            if nm in ("cross", "dot") and len(n.args) >= 2:
+                a, b = k.kind(n.args[0]), k.kind(n.args[1])
+                if P in (a, b) or PL in (a, b):
+                    which = n.args[0] if a in (P, PL) else n.args[1]
+                    out.append((n, f"'{ast.unparse(n)[:80]}' uses the POSITION '{ast.unparse(which)[:40]}' as a vector: the result depends on where the geometry sits relative to the global origin"))
+                if {a, b} & {P, V, PL, VL}:
+                    classified += 1
+            elif nm in ("norm", "unit_vector") and n.args:
+                a = k.kind(n.args[0])
+                if a in (P, PL):
+                    out.append((n, f"'{ast.unparse(n)[:80]}' measures the POSITION '{ast.unparse(n.args[0])[:40]}' (distance from the global origin)"))
+                if a in (P, V, PL, VL):
+                    classified += 1
+    return out, classified
